@@ -144,11 +144,13 @@ BOUNDED_NOTE = ("NOT a proof: bound = G1 programs of nesting depth <= 2 (quick, 
                 "suspension / probe points) on CPython 3.12.1 and 3.11.7; thorough adds 3.10.13, 3.9.18 and a strided sample of depth 3; the "
                 "ground truth is a shadow log kept by the generated managers; `match` statements and >2 items per with are not generated")
 PROPS["C01"] = dict(
-    level="exploration", contracts=["contracts.inspect311"],
+    level="exploration", contracts=["contracts.inspect311", "contracts.c01_lemmas", "contracts.lowlevel"],
+    unit_filter=lambda u: not u.name.startswith("C20."),
     legs=[g1("suspended", PY312, "py312"), g1("suspended", PY311, "py311"), corpus("exits", PY312, "py312"),
           corpus("exits", PY311, "py311", True), g1("suspended", PY310, "py310", thorough_only=True, vendor=True),
           g1("suspended", PY39, "py39", thorough_only=True, vendor=True), g1("suspended", PY312, "py312", 3, True, stride=40)],
-    technique=BOUNDED_TECH + "; pure sub-lemmas (varint / exception-table decoding, handler-chain walk) discharged deductively",
+    technique=BOUNDED_TECH + "; sub-lemmas (varint / exception-table decoding, handler-chain walk, the join of block stack and "
+              "with-statement table in _contexts_active_by_trickery) discharged deductively",
     claim="Bounded stand-in: at every suspension point of every program of the family, Frame.contexts equals the shadow log (identity of obj, "
           "is_async, is_exiting on exactly the exiting one) with no InspectionWarning; plus every exit site of the running interpreter's "
           "standard library resolves to the with block on its own source line. Sub-lemmas proved deductively are reported alongside and do "
@@ -165,14 +167,15 @@ PROPS["C02"] = dict(
           "listed, one being exited is listed last with is_exiting and obj set, for every way of leaving the block.",
     note=BOUNDED_NOTE)
 PROPS["C08"] = dict(
-    level="exploration", contracts=[], legs=[g1("meta", PY312, "py312"), g1("meta", PY311, "py311"), corpus("meta", PY312, "py312"),
+    level="exploration", contracts=["contracts.lowlevel"], unit_filter=lambda u: u.name == "C01.contexts_active_by_trickery",
+    legs=[g1("meta", PY312, "py312"), g1("meta", PY311, "py311"), corpus("meta", PY312, "py312"),
                                              dict(name="c08_targets_py312", cmd="PYTHONPATH={repo} " + PY312 + " legs/c08_targets.py"),
                                              dict(name="c08_targets_py311", cmd="PYTHONPATH={repo} " + PY311 + " legs/c08_targets.py"),
                                              dict(name="c08_targets_py310", cmd="PYTHONPATH={repo}:{verif}/.vendor " + PY310 + " legs/c08_targets.py", thorough_only=True),
                                              dict(name="c08_targets_py39", cmd="PYTHONPATH={repo}:{verif}/.vendor " + PY39 + " legs/c08_targets.py", thorough_only=True),
                                              corpus("meta", PY311, "py311", True), g1("meta", PY310, "py310", thorough_only=True, vendor=True),
                                              g1("meta", PY39, "py39", thorough_only=True, vendor=True)],
-    technique=BOUNDED_TECH,
+    technique=BOUNDED_TECH + "; the varname rule of the join (static `as` name, else a local whose value IS the manager) discharged deductively",
     claim="Bounded stand-in: start_line equals the line of the with keyword and varname equals the `as` target (None without one) for every "
           "context of the family; for every with statement of the standard library start_line is a with line and varname is None or parses "
           "to the item's target, supported targets not dropped.",
@@ -208,15 +211,26 @@ PROPS["C18"] = dict(
     note="NOT a proof; payload strings are single-line by construction of the generator (a repr containing a line separator would break the "
          "single-line clause trivially)")
 PROPS["C19"] = dict(
-    level="exploration", contracts=["contracts.types_fmt"], unit_filter=lambda u: u.name.startswith("C19."),
+    level="other", contracts=["contracts.types_fmt"], unit_filter=lambda u: u.name.startswith("C19."),
     legs=[dict(name="trees_C19", cmd="PYTHONPATH={repo} " + PY312 + " legs/trees.py C19"),
           dict(name="trees_C19_py311", cmd="PYTHONPATH={repo} " + PY311 + " legs/trees.py C19", thorough_only=True)],
-    technique="bounded contract check against an executable structural specification of the summary",
-    claim="Bounded stand-in: on the same generated trees x all 8 combinations of show_contexts / show_hidden_frames / capture_locals the "
-          "summary equals the structural projection (one entry per visible frame; with contexts: with-line entry per visible context, its "
-          "inner stack, its child contexts, own entry omitted only when the last context is exiting; locals iff capture_locals), pickles, "
-          "and format_flat == header + StackSummary.format() + leaf + error (also for recursion with collapsed repeats).",
-    note="NOT a proof; traceback module behaviour assumed")
+    technique=TECH + "; bounded leg against an executable structural specification",
+    explanation="Deductive part (all inputs): the three summary generators are verified as producers (ghost output = list of segments, one per "
+                "`yield` / `yield from`), each callee an abstract sequence given by an uninterpreted function of its arguments: "
+                "Stack._frame_summaries yields, per frame in order, nothing iff the frame is hidden and show_hidden_frames is off, else the "
+                "with-contexts expansion (same flags) iff show_contexts, else the frame's own entry; "
+                "Frame.as_stdlib_summary_with_contexts yields each context's summaries (this frame as parent, flags in the right positions, "
+                "no override line) and then its own entry unless the last context is exiting; Context._frame_summaries yields nothing iff "
+                "hidden, else one entry (parent's filename, start_line or parent.lineno, locals iff capture_locals), then the inner stack "
+                "summarised WITH contexts and the same flags, then each child Context's summaries with the same parent and flags (child "
+                "stacks skipped); Frame.as_stdlib_summary carries filename / lineno / funcname and locals iff capture_locals; every "
+                "FrameSummary argument is sort-checked to hold no frame. Not under contract: Stack.as_stdlib_summary's from_list call, "
+                "format_flat, the text of names/override lines, pickling - decided by the bounded leg (random trees x 8 flag sets, pickle "
+                "round trip, format_flat identity incl. recursion collapsing).",
+    claim="Summary generators proved to be the structural projection; format_flat, pickling and the traceback module's rendering checked on "
+          "a bounded family.",
+    note="traceback.FrameSummary / StackSummary behaviour assumed; callee sequences are abstract (modular: each generator is proved "
+         "against the others' contracts)")
 PROPS["C09"] = dict(
     level="other", contracts=["contracts.glue_small", "contracts.c11"],
     unit_filter=lambda u: u.name.startswith("C09.") or u.name.startswith("C11.fill_context"),
